@@ -123,20 +123,22 @@ def reinitialised(P, cname, state):
     if r is None:
         return False
     assigned = set()
-    for x in ast.walk(r[1]):
-        if isinstance(x, ast.Assign):
-            for t in x.targets:
-                if is_self_attr(t):
-                    assigned.add(t.attr)
-        if isinstance(x, ast.Call) and isinstance(x.func, ast.Attribute) and isinstance(x.func.value, ast.Name) and x.func.value.id == "self":
-            rr = view.resolve(x.func.attr)
-            if rr:
-                for y in ast.walk(rr[1]):
-                    if isinstance(y, ast.Assign):
-                        for t in y.targets:
-                            for tt in (t.elts if isinstance(t, ast.Tuple) else [t]):
-                                if is_self_attr(tt):
-                                    assigned.add(tt.attr)
+    seen, todo = set(), [r[1]]
+    while todo:
+        f = todo.pop()
+        if id(f) in seen:
+            continue
+        seen.add(id(f))
+        for x in ast.walk(f):
+            if isinstance(x, ast.Assign):
+                for t in x.targets:
+                    for tt in (t.elts if isinstance(t, ast.Tuple) else [t]):
+                        if is_self_attr(tt):
+                            assigned.add(tt.attr)
+            if isinstance(x, ast.Call) and isinstance(x.func, ast.Attribute) and isinstance(x.func.value, ast.Name) and x.func.value.id == "self":
+                rr = view.resolve(x.func.attr)
+                if rr:
+                    todo.append(rr[1])
     return state <= assigned
 
 
